@@ -355,6 +355,7 @@ func (c *RemoteClient) SendTxAndMarkOutputs(ctx context.Context, tx *wire.MsgTx,
 		Indexes: indexes,
 	}
 	if err := c.sendMessage(ctx, &Message{Payload: m}, messageTimeout); err != nil {
+		c.removeRequest(request, messageTimeout) // this call fails, so its request must not take a later response
 		return err
 	}
 
@@ -431,6 +432,7 @@ func (c *RemoteClient) SendExpandedTxAndMarkOutputs(ctx context.Context,
 		Indexes: indexes,
 	}
 	if err := c.sendMessage(ctx, &Message{Payload: m}, messageTimeout); err != nil {
+		c.removeRequest(request, messageTimeout) // this call fails, so its request must not take a later response
 		return err
 	}
 
@@ -526,6 +528,7 @@ func (c *RemoteClient) SaveTxs(ctx context.Context, txs expanded_tx.AncestorTxs)
 		Txs: txs,
 	}
 	if err := c.sendMessage(ctx, &Message{Payload: m}, messageTimeout); err != nil {
+		c.removeRequest(request, messageTimeout) // this call fails, so its request must not take a later response
 		return err
 	}
 
@@ -622,6 +625,7 @@ func (c *RemoteClient) GetTx(ctx context.Context, txid bitcoin.Hash32) (*wire.Ms
 	}, "Sending get tx request")
 	m := &GetTx{TxID: txid}
 	if err := c.sendMessage(ctx, &Message{Payload: m}, messageTimeout); err != nil {
+		c.removeRequest(request, messageTimeout) // this call fails, so its request must not take a later response
 		return nil, err
 	}
 
@@ -743,6 +747,7 @@ func (c *RemoteClient) GetHeaders(ctx context.Context, height, count int) (*Head
 		MaxCount:      uint32(count),
 	}
 	if err := c.sendMessage(ctx, &Message{Payload: m}, messageTimeout); err != nil {
+		c.removeRequest(request, messageTimeout) // this call fails, so its request must not take a later response
 		return nil, err
 	}
 
@@ -831,6 +836,7 @@ func (c *RemoteClient) GetHeader(ctx context.Context, blockHash bitcoin.Hash32) 
 		BlockHash: blockHash,
 	}
 	if err := c.sendMessage(ctx, &Message{Payload: m}, messageTimeout); err != nil {
+		c.removeRequest(request, messageTimeout) // this call fails, so its request must not take a later response
 		return nil, err
 	}
 
@@ -926,6 +932,7 @@ func (c *RemoteClient) GetFeeQuotes(ctx context.Context) (merchant_api.FeeQuotes
 	}, "Sending get fee quotes message")
 	m := &GetFeeQuotes{}
 	if err := c.sendMessage(ctx, &Message{Payload: m}, messageTimeout); err != nil {
+		c.removeRequest(request, messageTimeout) // this call fails, so its request must not take a later response
 		return nil, err
 	}
 
@@ -997,6 +1004,7 @@ func (c *RemoteClient) ReprocessTx(ctx context.Context, txid bitcoin.Hash32,
 		ClientIDs: clientIDs,
 	}
 	if err := c.sendMessage(ctx, &Message{Payload: m}, messageTimeout); err != nil {
+		c.removeRequest(request, messageTimeout) // this call fails, so its request must not take a later response
 		return err
 	}
 
@@ -1069,6 +1077,7 @@ func (c *RemoteClient) MarkHeaderInvalid(ctx context.Context, blockHash bitcoin.
 		BlockHash: blockHash,
 	}
 	if err := c.sendMessage(ctx, &Message{Payload: m}, messageTimeout); err != nil {
+		c.removeRequest(request, messageTimeout) // this call fails, so its request must not take a later response
 		return err
 	}
 
@@ -1141,6 +1150,7 @@ func (c *RemoteClient) MarkHeaderNotInvalid(ctx context.Context, blockHash bitco
 		BlockHash: blockHash,
 	}
 	if err := c.sendMessage(ctx, &Message{Payload: m}, messageTimeout); err != nil {
+		c.removeRequest(request, messageTimeout) // this call fails, so its request must not take a later response
 		return err
 	}
 
